@@ -4233,6 +4233,9 @@ fn get_arg_type(s: &str, quoted: bool) -> ArgType {
         } else {
             ArgType::Integer
         }
+    } else if quoted {
+        //a quoted value is a string (or a list, handled above), also if it reads null, any, true, false or a date
+        ArgType::String
     } else {
         match s {
             "null" => ArgType::Null,
